@@ -1,5 +1,6 @@
 import GoMailModel.Smtp.Send
 import GoMailModel.Generated.SendErr
+import GoMailModel.Generated.Narrow
 /-
   C20 â€” SendError reflects the server's verdict.
 -/
@@ -93,5 +94,14 @@ theorem esc_is_prefix_of_text (text e : Bytes) (h : escPrefix text = some e) : â
 /-- non-vacuity: the two replies of the property's discussion -/
 example : escPrefix (sb "5.1.1 User unknown") = some (sb "5.1.1") := by decide
 example : escPrefix (sb "blocked client 2.3.4.5 sorry") = none := by decide
+
+
+/-- Fact regenerated from the sources: the only integers narrower than `int` in the library are the nesting
+    depth of the multipart writer (at most four layers) and the step counter of LOGIN (at most two steps). No
+    count of parts, recipients, refusals, header fields, parameters or bytes is kept in a type that wraps at 128,
+    256 or 65536 - the theorems of this file quantify over all sizes, and this is the part of the tie that says the
+    code does not silently stop doing so. -/
+theorem no_narrow_counters :
+    Generated.narrowInts = ["msgwriter.go: int8", "smtp/auth_login.go: uint8"] := by decide
 
 end GoMail.Props.C20
